@@ -6,3 +6,4 @@ class Plugin(HistPlugin):
     id = 'C08'
     extra_import = 'HistProps HistPropCheck'
     check_fn = 'c08_check'
+    FINDING_BITS = 1
